@@ -24,8 +24,12 @@ func C06_op_step() {
 	copy(w.buf, old)
 	w.n = n
 	if vChoose("fseqpos", 2) == 1 {
-		w.fseq = vInt("fseq")
-		vAssume(vAnd(w.fseq > 0, w.fseq < 1<<40))
+		// any number of fragments already sent (whatever integer type the counter has: every value
+		// it can hold)
+		fs0 := vInt("fseq")
+		vAssume(vAnd(fs0 > 0, fs0 < 1<<40))
+		vSetIntLike(&w.fseq, fs0)
+		vAssume(vGetIntLike(w.fseq) == fs0)
 	}
 	w.dirty = vBool("dirty")
 	vAssume(vImplies(w.fseq > 0, w.dirty))
@@ -35,7 +39,7 @@ func C06_op_step() {
 	// step.invariant_* below keep it inductive, now also for failing and stalling sources.)
 	vAssume(vImplies(n > 0, w.dirty))
 	w.noFlush = vBool("noflush")
-	fseq0, dirty0, noFlush := w.fseq, w.dirty, w.noFlush
+	fseq0, dirty0, noFlush := vGetIntLike(w.fseq), w.dirty, w.noFlush
 	size0 := w.Size()
 
 	maxP := 2*bufLen + 1
@@ -174,7 +178,7 @@ func C06_op_step() {
 	now := append(append([]byte{}, sent...), w.buf[:w.n]...)
 	vAssert(vEqBytes(now, all), "step.bytes_conserved")
 	if !isFlush {
-		vAssert(w.fseq == fseq0+len(fs), "step.fseq_counts_frames")
+		vAssert(vGetIntLike(w.fseq) == fseq0+len(fs), "step.fseq_counts_frames")
 		vAssert(vImplies(w.fseq > 0, w.dirty), "step.invariant_fseq_dirty")
 		vAssert(vImplies(w.n > 0, w.dirty), "step.invariant_n_dirty")
 	}
